@@ -112,7 +112,7 @@ package opshell
 //@   ghost raw bool = false
 //@   ghost nCleanup int = 0
 //@   on call os.Open(n) (f, e): opened = e == nil
-//@   on call goxterm.MakeRaw(fd) (os, e): assert(opened && nCleanup == 0, "raw_mode_on_the_opened_tty"); raw = e == nil
+//@   on call goxterm.MakeRaw(fd) (os, e): assert(opened && nCleanup == 0 && fd == int(s.ttyF.Fd()), "raw_mode_on_the_opened_tty"); raw = e == nil
 //@   on enter cleanup(): nCleanup++
 //@   ensures failure_returns_nothing: imp(err != nil, sh == nil && cleanup == nil)
 //@   ensures success_returns_shell_and_cleanup: imp(err == nil, sh != nil && cleanup != nil)
@@ -126,7 +126,7 @@ package opshell
 //@   nilable oldState
 //@   ghost nRestore int = 0
 //@   ghost nClose int = 0
-//@   on enter goxterm.Restore(fd, os): assert(os == oldState && oldState != nil && nClose == 0, "restores_the_state_saved_by_MakeRaw_before_closing"); nRestore++
+//@   on enter goxterm.Restore(fd, os): assert(os == oldState && oldState != nil && nClose == 0 && fd == int(s.ttyF.Fd()), "restores_the_state_saved_by_MakeRaw_on_the_same_tty_before_closing"); nRestore++
 //@   on enter os.File.Close(f): assert(f == s.ttyF, "closes_the_tty"); nClose++
 //@   ensures restored_iff_saved: iff(nRestore == 1, oldState != nil) && nRestore <= 1
 //@   ensures tty_closed: nClose == 1
